@@ -60,7 +60,32 @@ class Engine:
             a = per[0][k]
             for (e, pol) in split_conj(a.ast, a.polarity):
                 out.append((e, pol, a))
-        return sorted(out, key=lambda t: t[2].id)
+        out = sorted(out, key=lambda t: t[2].id)
+        # inside a comprehension the element expression is evaluated only for elements that passed the `if`s of its generators
+        from .astx import ancestors as _anc
+        prev = node
+        for a_ in _anc(node):
+            if isinstance(a_, ast.stmt):
+                break
+            if isinstance(a_, (ast.ListComp, ast.SetComp, ast.GeneratorExp, ast.DictComp)):
+                conds = []
+                in_elt = prev in ([a_.key, a_.value] if isinstance(a_, ast.DictComp) else [a_.elt])
+                for g in a_.generators:
+                    if prev is g:
+                        # node sits in this generator: in its iterable (no condition of it applies) or in one of its ifs (earlier ifs apply)
+                        for i_ in g.ifs:
+                            if any(x is node for x in ast.walk(i_)):
+                                break
+                            if not any(x is node for x in ast.walk(g.iter)):
+                                conds.append(i_)
+                        break
+                    conds.extend(g.ifs)
+                if in_elt or prev in a_.generators:
+                    for i_ in conds:
+                        for (e, pol) in split_conj(i_, True):
+                            out.append((e, pol, ns[0]))
+            prev = a_
+        return out
 
     def guarded_by(self, fn: FuncInfo, node: ast.AST, pred: Callable[[ast.AST, bool], bool],
                    no_suspension: bool = False) -> Optional[tuple[ast.AST, bool, Node]]:
